@@ -5,10 +5,11 @@
 #include <iostream>
 #include <fstream>
 #include <map>
-typedef std::string (*Runner)(const hv::Args&);
+using hv::Runner;
+static std::map<std::string, Runner>& table() { static std::map<std::string, Runner> t; return t; }
+hv::Reg::Reg(const char* name, Runner r) { table()[name] = r; }
 int main(int argc, char** argv) {
-	std::map<std::string, Runner> tab;
-	tab["bs"] = &run_bs;
+	std::map<std::string, Runner>& tab = table();
 	std::ifstream file;
 	if (argc > 1) { file.open(argv[1]); }
 	std::istream& in = argc > 1 ? static_cast<std::istream&>(file) : std::cin;
